@@ -240,12 +240,15 @@ def Reader.seekStart (r : Reader) (off : Int) : Reader × Int × Err :=
       -- AFTER the `fix:` commit: resetPosition() again before returning the error
       | _ => ({ r0 with w := { root := r.w.root, fails := x.1.fails } }, 0, .err)
 
-/-- `Seek(offset, whence)` -/
+/-- int64 addition as Go performs it (two's complement wrap-around) -/
+def wrap64 (x : Int) : Int := (x + 2 ^ 63) % 2 ^ 64 - 2 ^ 63
+
+/-- `Seek(offset, whence)`; `dr.offset+offset` and `int64(dr.Size())+offset` are int64 sums -/
 def Reader.seek (r : Reader) (off : Int) (whence : Nat) : Reader × Int × Err :=
   match whence with
   | 0 => r.seekStart off
-  | 1 => if off = 0 then (r, r.offset, .nil) else r.seekStart (r.offset + off)
-  | 2 => r.seekStart (r.size + off)
+  | 1 => if off = 0 then (r, r.offset, .nil) else r.seekStart (wrap64 (r.offset + off))
+  | 2 => r.seekStart (wrap64 (r.size + off))
   | _ => (r, 0, .err)
 
 /-! ### operations, outputs, and the specification (a seekable in-memory byte reader) -/
@@ -285,8 +288,8 @@ def Spec.step (s : Spec) : Op → Spec × Out
     let b := (s.content.drop s.pos).take k
     ({ s with pos := s.pos + b.length }, { bytes := b, off := b.length, err := if b.length < k then .eof else .nil })
   | .seek off 0 => s.seekTo off
-  | .seek off 1 => s.seekTo (s.pos + off)
-  | .seek off 2 => s.seekTo (s.content.length + off)
+  | .seek off 1 => s.seekTo (if off = 0 then s.pos else wrap64 (s.pos + off))     -- int64 sums, as bytes.Reader.Seek
+  | .seek off 2 => s.seekTo (wrap64 (s.content.length + off))
   | .seek _ _ => (s, { bytes := [], off := 0, err := .err })
   | .writeTo =>
     let b := s.content.drop s.pos
@@ -295,6 +298,10 @@ def Spec.step (s : Spec) : Op → Spec × Out
 def Spec.run (s : Spec) : List Op → List Out
   | [] => []
   | op :: ops => (s.step op).2 :: Spec.run (s.step op).1 ops
+
+def Op.isSeek : Op → Bool
+  | .seek _ _ => true
+  | _ => false
 
 def Op.isZeroRead : Op → Bool
   | .read 0 => true
